@@ -43,6 +43,10 @@ def sig(b):
         s["from"] = r.get("ver")
         s["kf"] = bool(r.get("kf"))
         s["named_tex"] = shape.get("textures", 0) > 0
+        s["namelen"] = r.get("namelen", -1)
+        s["texlen"] = r.get("texlen", -1)
+        if rec.get("ev") == "Convert":
+            s["api"] = rec.get("api")
         s["sec_card"] = shape.get(sec.rstrip("+"), -1)
         # events carry a `ranges` array only for source versions < 264 (see assumptions)
         s["ev_ranges"] = bool(r.get("kf")) and shape.get("events", 0) > 0 and int(r.get("vn") or 0) < 264
